@@ -39,6 +39,7 @@ def c05(tier, seed):
 
 
 ENGINES = {
+    "serdeq": ({"C17"}, "serde: recording serializer, format references, scripted deserializer grid"),
     "arrmac": ({"C20"}, "generated arr!/box_arr! invocations with logging element expressions"),
     "zc": ({"C19"}, "zeroize visit counting and constant-default reach, run time + const items"),
     "hex": ({"C14"}, "LowerHex/UpperHex vs per-byte reference; built with and without faster-hex"),
@@ -275,7 +276,37 @@ def c20(tier, seed):
             Run("arrmac", "miri", ["--maxn", "64"], shards=32, label="arrmac/miri(count<=64)")]
 
 
+def c17(tier, seed):
+    if tier == "quick":
+        return [Run("serdeq", "debug", [], shards=4), Run("serdeq", "miri", ["--maxn", "3"], shards=16, label="serdeq/miri(N<=3)")]
+    return [Run("serdeq", "debug", [], shards=8), Run("serdeq", "release", [], shards=8),
+            Run("serdeq", "miri", ["--maxn", "5"], shards=32, label="serdeq/miri(N<=5)"),
+            Run("serdeq", "memcheck", ["--maxn", "8"], shards=16)]
+
+
 SPECS = {
+    "C17": dict(
+        engine="serdeq",
+        technique="recording Serializer (call-sequence monitor) + encodings vs tuple/Vec/concatenation references in JSON, bincode and serde_json::Value + scripted Deserializer/SeqAccess grid with ledger-tracked elements; Miri/memcheck",
+        level="exploration",
+        level_text=("A recording Serializer must see serialize_tuple(N), N x serialize_element in index order, end (never serialize_seq); JSON text must "
+                    "equal the element list's, bincode bytes the concatenation of the elements' encodings with no length prefix, and JSON / bincode / "
+                    "Value round-trip equal arrays for N in 0..=8, 16, 17, 32, 33, 100 with u8, f64, String and nested elements; wrong-length, "
+                    "malformed-surplus, bad-element-at-every-index and truncated inputs must be rejected. A scripted deserializer delivers every "
+                    "count 0..=N+2 under five up-front hints (none, exact, too small, too large, truthful) x four running-hint policies x an element "
+                    "error at every index: Ok only if the hint allows N, exactly N good elements were delivered; Ok whenever they were; no "
+                    "next_element after the end; ledger-tracked elements already read are dropped exactly once. The carved-out source "
+                    "(size_hint()==Some(0) while still holding elements) is generated and counted but not judged."),
+        level_note="Trusted: serde_json and bincode as reference encoders; the scripted SeqAccess' own log; ledger.",
+        runs=c17,
+        min_cases=4000,
+        must_count=["c17.scripted_cases", "ledger.drops"],
+        exhaustive={"quick": True, "thorough": True},
+        rule=("one case = (scripted: N, delivered count, up-front hint, running hint, error index) or (format family, N); the scripted grid is "
+              "enumerated completely for N in 0..=8 (+16, 17, 33 in thorough); non-trivial = at least one element delivered"),
+        explanation="oracle from the script's own parameters and log; out-of-claim cases are reported in monitor_events['c17.out_of_claim_cases']",
+        assumptions=["N in 0..=8 for the scripted grid"],
+    ),
     "C20": dict(
         engine="arrmac",
         technique="generated macro invocations with logging element expressions: evaluation-order recorder + type-level length reader + contents vs the values returned and vs the native literal; repeat forms count evaluations of x; const items evaluated by the compiler",
